@@ -30,6 +30,10 @@ SpecDenseLatticesOK == (s = 0) =>
   /\ DenseLatticeOK("chain2", 3) /\ DenseLatticeOK("chain3", 2)
   /\ DenseLatticeOK("pow2", 2)   /\ DenseLatticeOK("nil5", 2)
 
+SpecDenseLatticesSmall == (s = 0) =>
+  /\ DenseLatticeOK("chain2", 2) /\ DenseLatticeOK("chain3", 1)
+  /\ DenseLatticeOK("pow2", 1)   /\ DenseLatticeOK("nil5", 1)
+
 \* ---- the nilness table dumped from the real code ----
 RealNil(a, b) == Obs.nil_table[a + 1][b + 1]
 RealNilShape == Len(Obs.nil_table) = 5 /\ \A i \in 1..5 : Len(Obs.nil_table[i]) = 5
